@@ -226,7 +226,7 @@ func cmdCheck(args []string) int {
 			return inconclusive("HARNESS-BUILD-ERROR " + strings.ReplaceAll(err.Error(), "\n", " | "))
 		}
 		cfg := RunConfig{Workers: *workers, Budget: 5_000_000, Solver: "z3-new", TimeoutMs: 20000, CapConc: 64, KeepPaths: 12, Verbose: *verbose,
-			Props: map[string]bool{id: true}, Deadline: deadline}
+			Props: map[string]bool{id: true, "ORACLE": true}, Deadline: deadline}
 		cfg.FeAudit = 500
 		if *tier == "thorough" {
 			cfg.Cross = "cvc5"
@@ -339,6 +339,11 @@ func cmdCheck(args []string) int {
 		}
 		seenKey := map[string]int{}
 		for _, c := range res.Cands {
+			if c.Property == "ORACLE" {
+				// the reference evaluator disagrees with a worked example of an RFC: nothing this run says can be trusted
+				allIncomplete = append(allIncomplete, "ORACLE self-check failed: "+c.AssertID)
+				continue
+			}
 			key := c.Harness + "|" + c.AssertID
 			seenKey[key]++
 			if seenKey[key] > 3 {
